@@ -1,8 +1,10 @@
-(* Proofs/AStarBudget.v — astar_budget: with early stopping (the mode the flux solver uses) the goal is found
-   within E iterations on every graph with at most E edges in which the goal is reachable, for a cost function
-   that is consistent towards the goal.  Accounting: every queue entry except the first one is paid for by a
-   distinct undirected edge not incident to the goal (an edge a - b is relaxed at most once: from the endpoint
-   that is expanded first, whose cost is then optimal and final). *)
+(* Proofs/AStarBudget.v — astar_budget: in BOTH stopping modes the search (loop of pathfinding.py after fix
+   475bcae: maxits bounds the number of expanded nodes, popping the goal is free) finds the goal with maxits >= E
+   on every graph with edge ids below E in which the goal is reachable, for a cost function that is consistent
+   towards the goal.  Accounting: every queue entry except the first one is paid for by a distinct undirected
+   edge (an edge a - b is relaxed at most once: from the endpoint that is expanded first, whose cost is then
+   optimal and final); when E nodes have been expanded and the queue is not empty, all E edges have paid, so the
+   goal has an entry, and the single entry left is the goal's. *)
 From Coq Require Import List ZArith Bool Arith Lia ZifyBool.
 From Koala Require Import Model.AStar Proofs.AStarFacts Proofs.AStarOptimal.
 Import ListNotations.
@@ -28,6 +30,7 @@ Section Budget.
   Variable h : nat -> nat -> Z.
   Variable start goal : nat.
   Variable E : nat.
+  Variable early : bool.
   Hypothesis Hh : forall a b e, In (b, e) (adj a) -> 0 <= h a b /\ (a <> b -> 0 < h a b).
   Hypothesis Hcons : forall a b e, In (b, e) (adj a) -> h a goal <= h a b + h b goal.
   Hypothesis Hhg : forall n, 0 <= h n goal.
@@ -41,7 +44,11 @@ Section Budget.
   Notation Fp := (F_parent h start).
   Notation Ff := (F_front h start goal).
   Notation Fo := (F_open adj h start goal).
-  Notation inv := (as_st_inv adj start goal true).
+  Notation inv := (as_st_inv adj start goal early).
+
+  (* the goal's current entry stays in the queue (it is only removed by popping the goal, which returns) *)
+  Definition Fg (st : as_state) : Prop :=
+    forall cg, as_lookup goal (as_cost st) = Some cg -> In (cg + h goal goal, goal) (as_frontier st).
 
   Definition Optimal (n : nat) (c : Z) : Prop :=
     forall ws es, as_chain adj ws es -> hd_error ws = Some n -> (forall d, last ws d = start) -> c <= as_chain_cost h ws.
@@ -77,7 +84,7 @@ Section Budget.
     BI st C (cur :: C) U -> as_lookup cur (as_cost st) = Some cc -> Fo (Some cur) st ->
     (forall b e, In (b, e) done -> exists cb, as_lookup b (as_cost st) = Some cb /\ cb <= cc + h cur b) ->
     (forall x, In x nbrs -> In x (adj cur)) ->
-    match as_relax h goal true cur nbrs st with
+    match as_relax h goal early cur nbrs st with
     | AS_Continue st' =>
         exists U', BI st' C (cur :: C) U' /\ as_lookup cur (as_cost st') = Some cc /\ Fo (Some cur) st' /\
           (forall b e, In (b, e) (done ++ nbrs) -> exists cb, as_lookup b (as_cost st') = Some cb /\ cb <= cc + h cur b) /\
@@ -88,7 +95,7 @@ Section Budget.
   Proof.
     induction nbrs as [| [nxt e] r IH]; intros cur st cc done C U HB Hcc HO HD Hsub; simpl.
     - exists U. rewrite app_nil_r. auto 10.
-    - destruct (nxt =? goal)%nat eqn:Hng; [exact Logic.I |]. rewrite Hcc.
+    - destruct (early && (nxt =? goal)%nat) eqn:Hng; [exact Logic.I |]. rewrite Hcc.
       assert (Hadj : In (nxt, e) (adj cur)) by (apply Hsub; now left).
       assert (Hsub' : forall x, In x r -> In x (adj cur)) by (intros x Hx; apply Hsub; now right).
       destruct (Hh cur nxt e Hadj) as [Hh0 Hhpos].
@@ -96,7 +103,7 @@ Section Budget.
       pose proof (si_nonneg _ _ _ _ _ I cur cc Hcc) as Hcc0.
       set (nc := cc + h cur nxt).
       assert (Hupd : forall mg, (match as_lookup nxt (as_cost st) with Some old => nc < old | None => True end) ->
-                match as_relax h goal true cur r
+                match as_relax h goal early cur r
                         (mkAS ((nc + h nxt goal, nxt) :: as_frontier st) ((nxt, Some (cur, e)) :: as_came st)
                               ((nxt, nc) :: as_cost st) mg) with
                 | AS_Continue st' =>
@@ -132,14 +139,13 @@ Section Budget.
           destruct (G2 _ _ _ _ _ Hadj Hb) as [[-> ->] | [-> ->]].
           - rewrite Hcc in Hca. injection Hca as <-. rewrite Hcb in Hlt. unfold nc in Hlt. lia.
           - destruct Ha as [Ha | Ha]; [congruence | contradiction]. }
-        pose proof (as_update_inv adj h start goal true Hh st cur nxt e cc mg I Hcc Hadj
-                      ltac:(rewrite Hng; reflexivity) Hlt) as I'.
+        pose proof (as_update_inv adj h start goal early Hh st cur nxt e cc mg I Hcc Hadj Hng Hlt) as I'.
         fold nc in I'.
         specialize (IH cur (mkAS ((nc + h nxt goal, nxt) :: as_frontier st) ((nxt, Some (cur, e)) :: as_came st)
                                  ((nxt, nc) :: as_cost st) mg) cc (done ++ [(nxt, e)]) C ((e, cur) :: U)).
         cbn [as_cost as_came as_frontier as_margin] in IH. rewrite as_lookup_cons_neq in IH by congruence.
         replace (done ++ (nxt, e) :: r) with ((done ++ [(nxt, e)]) ++ r) by (rewrite <- app_assoc; reflexivity).
-        assert (Hpre : match as_relax h goal true cur r
+        assert (Hpre : match as_relax h goal early cur r
                                (mkAS ((nc + h nxt goal, nxt) :: as_frontier st) ((nxt, Some (cur, e)) :: as_came st)
                                      ((nxt, nc) :: as_cost st) mg) with
                        | AS_Continue st' =>
@@ -195,7 +201,7 @@ Section Budget.
               * exists nc. rewrite as_lookup_cons_eq. split; [reflexivity |]. rewrite Hcb in Hle. lia.
               * exists cb. rewrite as_lookup_cons_neq by assumption. auto.
             + inversion Hb; subst. exists nc. rewrite as_lookup_cons_eq. split; [reflexivity | unfold nc; lia]. }
-        destruct (as_relax h goal true cur r _) as [st' | st' |]; auto.
+        destruct (as_relax h goal early cur r _) as [st' | st' |]; auto.
         destruct Hpre as (U' & H1 & H2 & H3 & H4 & H5). exists U'. split; [exact H1 |]. split; [exact H2 |]. split; [exact H3 |]. split; [exact H4 |]. simpl in H5. lia. }
       destruct (as_lookup nxt (as_cost st)) as [old |] eqn:Hold.
       + fold nc. destruct (Z.ltb_spec nc old) as [Hlt | Hge].
@@ -213,14 +219,14 @@ Section Budget.
   (* expanding a closed node changes nothing *)
   Lemma as_relax_closed : forall nbrs cur st cc, as_lookup cur (as_cost st) = Some cc -> closed (as_cost st) cur cc ->
     (forall x, In x nbrs -> In x (adj cur)) ->
-    match as_relax h goal true cur nbrs st with
+    match as_relax h goal early cur nbrs st with
     | AS_Continue st' => as_frontier st' = as_frontier st /\ as_came st' = as_came st /\ as_cost st' = as_cost st
     | AS_Return _ => True
     | AS_KeyError => False
     end.
   Proof.
     induction nbrs as [| [nxt e] r IH]; intros cur st cc Hcc Hcl Hsub; simpl; [auto |].
-    destruct (nxt =? goal)%nat; [exact Logic.I |]. rewrite Hcc.
+    destruct (early && (nxt =? goal)%nat); [exact Logic.I |]. rewrite Hcc.
     destruct (Hcl nxt e (Hsub _ (or_introl eq_refl))) as (cb & Hcb & Hle). rewrite Hcb.
     destruct (Z.ltb_spec (cc + h cur nxt) cb) as [Hlt | _]; [lia |].
     pose proof (IH cur (mkAS (as_frontier st) (as_came st) (as_cost st)
@@ -228,18 +234,30 @@ Section Budget.
     cbn [as_cost as_came as_frontier as_margin] in IH'. apply IH'; auto. intros x Hx. apply Hsub. now right.
   Qed.
 
-  (* the goal is never recorded before the early return *)
-  Lemma goal_unrecorded : forall st, inv st -> as_lookup goal (as_cost st) = None.
+  (* Fg is kept by the neighbour loop *)
+  Lemma as_relax_Fg : forall nbrs cur st, Fg st ->
+    match as_relax h goal early cur nbrs st with
+    | AS_Continue st' => Fg st'
+    | _ => True
+    end.
   Proof.
-    intros st I. destruct (as_lookup goal (as_cost st)) eqn:Hc; [| reflexivity].
-    exfalso. assert (H : as_lookup goal (as_came st) <> None) by (apply (si_keys _ _ _ _ _ I); congruence).
-    apply H. apply (si_goal _ _ _ _ _ I eq_refl Hgs).
+    induction nbrs as [| [nxt e] r IH]; intros cur st HG; simpl; [exact HG |].
+    destruct (early && (nxt =? goal)%nat); [exact Logic.I |].
+    destruct (as_lookup cur (as_cost st)) as [cc |]; [| exact Logic.I].
+    assert (Hupd : forall mg, Fg (mkAS ((cc + h cur nxt + h nxt goal, nxt) :: as_frontier st) ((nxt, Some (cur, e)) :: as_came st)
+                                     ((nxt, cc + h cur nxt) :: as_cost st) mg)).
+    { intros mg cg Hl. cbn [as_cost as_frontier] in *. destruct (Nat.eq_dec goal nxt) as [<- | Hne].
+      - rewrite as_lookup_cons_eq in Hl. injection Hl as <-. now left.
+      - rewrite as_lookup_cons_neq in Hl by assumption. right. now apply HG. }
+    destruct (as_lookup nxt (as_cost st)) as [old |].
+    - destruct (cc + h cur nxt <? old); apply IH; [apply Hupd | exact HG].
+    - apply IH. apply Hupd.
   Qed.
 
-  (* while the goal has not been seen the queue is not empty *)
-  Lemma frontier_nonempty : forall st, inv st -> Fo None st -> as_frontier st = [] -> False.
+  (* while the goal has not been popped the queue is not empty *)
+  Lemma frontier_nonempty : forall st, inv st -> Fo None st -> Fg st -> as_frontier st = [] -> False.
   Proof.
-    intros st I HO Hemp. destruct G3 as (ws & es & Hch & Hhd & Hlast).
+    intros st I HO HG Hemp. destruct G3 as (ws & es & Hch & Hhd & Hlast).
     assert (Hrec : forall ws es, as_chain adj ws es -> forall d, last ws d = start ->
                    exists c, as_lookup (hd d ws) (as_cost st) = Some c).
     { clear ws es Hch Hhd Hlast. intros ws es Hch. induction Hch as [a | a b e ns es Hin Hc IH]; intros d Hl.
@@ -249,31 +267,49 @@ Section Budget.
         destruct (Hcl a e Hin) as (ca & Hca & _). exists ca. exact Hca. }
     destruct (Hrec ws es Hch goal Hlast) as (c & Hc).
     destruct ws as [| g ws']; [discriminate |]. injection Hhd as ->. simpl in Hc.
-    rewrite (goal_unrecorded st I) in Hc. discriminate.
+    specialize (HG c Hc). rewrite Hemp in HG. contradiction.
   Qed.
 
-  (* at most E - 1 edges can have paid for a queue entry: none of them touches the goal *)
-  Lemma U_bound : forall st C U, BI st C C U -> (S (length U) <= E)%nat.
+  (* every edge pays at most once *)
+  Lemma U_bound : forall st C U, BI st C C U -> (length U <= E)%nat.
   Proof.
-    intros st C U [I HP HF HC HU Hnd]. destruct G3 as (ws & es & Hch & Hhd & Hlast).
-    (* the last edge of a walk into the goal *)
+    intros st C U [I HP HF HC HU Hnd].
+    assert (Hincl : incl (map fst U) (seq 0 E)).
+    { intros x Hx. apply in_seq. apply in_map_iff in Hx as ([e' a] & He' & Hin). simpl in He'. subst e'.
+      destruct (HU x a Hin) as (_ & b & _ & _ & Hb & _). pose proof (G1 _ _ _ Hb). lia. }
+    pose proof (NoDup_incl_length Hnd Hincl) as Hlen. rewrite map_length, seq_length in Hlen. exact Hlen.
+  Qed.
+
+  (* E nodes expanded, the goal not popped, and a non-goal node at the head of the queue: impossible *)
+  Lemma budget_exhausted : forall st C U k p cur rest,
+    BI st C C U -> Fg st -> (k + length (as_frontier st) = 1 + length U)%nat -> (E <= k)%nat ->
+    as_pq_get (as_frontier st) = Some ((p, cur), rest) -> cur <> goal -> False.
+  Proof.
+    intros st C U k p cur rest HB HG Hcount Hk Hget Hcg.
+    pose proof (U_bound st C U HB) as HUb. pose proof HB as [I HP HF HC HU Hnd].
+    pose proof (as_pq_get_length _ _ _ Hget) as Hlen.
+    destruct (as_pq_get_some _ _ _ Hget) as [Hin _].
+    assert (HUE : length U = E) by lia. assert (Hf1 : length (as_frontier st) = 1%nat) by lia.
+    (* every edge id below E has paid, in particular the last edge of a walk into the goal *)
+    destruct G3 as (ws & es & Hch & Hhd & Hlast).
     assert (Heg : exists b eg, In (goal, eg) (adj b)).
-    { inversion Hch as [a Ha | a b e ns es' Hin Hc Ha]; subst.
+    { inversion Hch as [a Ha | a b e ns es' Hin' Hc Ha]; subst.
       - simpl in Hhd, Hlast. injection Hhd as ->. congruence.
       - simpl in Hhd. injection Hhd as ->. eauto. }
     destruct Heg as (b0 & eg & Hin0).
-    assert (Hnot : ~ In eg (map fst U)).
-    { intros Hin. apply in_map_iff in Hin as ([e' a] & He' & Hin). simpl in He'. subst e'.
-      destruct (HU eg a Hin) as (Ha & b & cb & ca & Hb & Hca & Hcb & _).
-      pose proof (goal_unrecorded st I) as Hg.
-      destruct (G2 _ _ _ _ _ Hin0 Hb) as [[-> ->] | [-> ->]]; congruence. }
-    assert (Hincl : incl (eg :: map fst U) (seq 0 E)).
-    { intros x [<- | Hx]; apply in_seq.
-      - pose proof (G1 _ _ _ Hin0). lia.
-      - apply in_map_iff in Hx as ([e' a] & He' & Hin). simpl in He'. subst e'.
-        destruct (HU x a Hin) as (_ & b & _ & _ & Hb & _). pose proof (G1 _ _ _ Hb). lia. }
-    assert (Hnd' : NoDup (eg :: map fst U)) by (constructor; assumption).
-    pose proof (NoDup_incl_length Hnd' Hincl) as Hlen. simpl in Hlen. rewrite map_length, seq_length in Hlen. exact Hlen.
+    assert (Hincl : incl (map fst U) (seq 0 E)).
+    { intros x Hx. apply in_seq. apply in_map_iff in Hx as ([e' a] & He' & Hin'). simpl in He'. subst e'.
+      destruct (HU x a Hin') as (_ & b & _ & _ & Hb & _). pose proof (G1 _ _ _ Hb). lia. }
+    assert (Hrev : incl (seq 0 E) (map fst U)).
+    { apply NoDup_length_incl; [assumption | rewrite map_length, seq_length; lia | assumption]. }
+    assert (HegU : In eg (map fst U)) by (apply Hrev, in_seq; pose proof (G1 _ _ _ Hin0); lia).
+    apply in_map_iff in HegU as ([e' a] & He' & HinU). simpl in He'. subst e'.
+    destruct (HU eg a HinU) as (Ha & b & cb & ca & Hb & Hca & Hcb & _).
+    assert (Hgrec : exists cg, as_lookup goal (as_cost st) = Some cg).
+    { destruct (G2 _ _ _ _ _ Hin0 Hb) as [[-> ->] | [-> ->]]; eauto. }
+    destruct Hgrec as (cg & Hcg'). specialize (HG cg Hcg').
+    destruct (as_frontier st) as [| x [| y l]]; simpl in Hf1; try lia.
+    destruct Hin as [Hx | []]. subst x. destruct HG as [HG | []]. inversion HG. congruence.
   Qed.
 
   Lemma BI_weaken : forall st C U x, BI st C C U -> BI st C (x :: C) U.
@@ -318,22 +354,21 @@ Section Budget.
   Qed.
 
   Lemma as_loop_budget : forall fuel st C U k,
-    BI st C C U -> Fo None st -> (k + length (as_frontier st) = 1 + length U)%nat -> (E <= fuel + k)%nat ->
-    match as_loop adj h goal true fuel st with
+    BI st C C U -> Fo None st -> Fg st -> (k + length (as_frontier st) = 1 + length U)%nat -> (E <= fuel + k)%nat ->
+    match as_loop adj h goal early fuel st with
     | AS_Found _ _ _ => True
     | _ => False
     end.
   Proof.
-    induction fuel as [| f IH]; intros st C U k HB HO Hcount Hfuel; simpl.
-    - pose proof (U_bound st C U HB) as HUb.
-      apply (frontier_nonempty st (bi_base _ _ _ _ HB) HO). destruct (as_frontier st); [reflexivity | simpl in Hcount; lia].
-    - destruct (as_pq_get (as_frontier st)) as [[[p cur] rest] |] eqn:Hget.
-      2:{ apply (frontier_nonempty st (bi_base _ _ _ _ HB) HO). destruct (as_frontier st); [reflexivity | discriminate]. }
-      pose proof HB as [I HP HF HC HU Hnd].
+    induction fuel as [| f IH]; intros st C U k HB HO HG Hcount Hfuel; simpl;
+      (destruct (as_pq_get (as_frontier st)) as [[[p cur] rest] |] eqn:Hget;
+       [| apply (frontier_nonempty st (bi_base _ _ _ _ HB) HO HG); destruct (as_frontier st); [reflexivity | discriminate]]);
+      (destruct (Nat.eqb_spec cur goal) as [-> | Hcg]; [exact Logic.I |]).
+    - apply (budget_exhausted st C U k p cur rest HB HG Hcount ltac:(lia) Hget Hcg).
+    - pose proof HB as [I HP HF HC HU Hnd].
       destruct (as_pq_get_some _ _ _ Hget) as [Hin Hrest].
       pose proof (as_pq_get_length _ _ _ Hget) as Hlen.
       pose proof (si_frontier _ _ _ _ _ I p cur Hin) as Hcur.
-      destruct (Nat.eqb_spec cur goal) as [-> | Hcg]; [exact Logic.I |].
       destruct (as_lookup cur (as_cost st)) as [cc |] eqn:Hcc; [| congruence].
       set (st1 := mkAS rest (as_came st) (as_cost st) (as_pop_margin (as_margin st) p rest)).
       assert (I1 : inv st1).
@@ -341,31 +376,35 @@ Section Budget.
       assert (HF1 : Ff st1).
       { intros q n Hq Hn. apply (HF q n); [apply Hrest; exact Hq | exact Hn]. }
       assert (HB1 : BI st1 C C U) by (constructor; auto).
+      assert (HG1 : Fg st1).
+      { intros cg Hl. apply (as_pq_get_other _ _ _ _ Hget (HG cg Hl)). simpl. congruence. }
       assert (HO1 : Fo (Some cur) st1).
       { intros a ca Ha Hl. assert (Hac : a <> cur) by congruence.
         destruct (HO a ca ltac:(discriminate) Hl) as [Hcl | [He | [Hs He]]]; [now left | right; left | right; right; split; [assumption |]].
         - apply (as_pq_get_other _ _ _ _ Hget He). simpl. exact Hac.
         - apply (as_pq_get_other _ _ _ _ Hget He). simpl. congruence. }
+      pose proof (as_relax_Fg (adj cur) cur st1 HG1) as HGr.
       destruct (HO cur cc ltac:(discriminate) Hcc) as [Hcl | Hent].
       + (* cur is closed already: nothing changes *)
         pose proof (as_relax_closed (adj cur) cur st1 cc Hcc Hcl (fun x H => H)) as Hr.
-        destruct (as_relax h goal true cur (adj cur) st1) as [st' | st' |]; [| exact Logic.I | contradiction].
+        destruct (as_relax h goal early cur (adj cur) st1) as [st' | st' |]; [| exact Logic.I | contradiction].
         destruct Hr as (Hf' & Hc' & Hs').
         assert (Heq : st' = mkAS rest (as_came st) (as_cost st) (as_margin st')).
         { destruct st'; simpl in *; subst; reflexivity. }
-        rewrite Heq.
+        rewrite Heq in HGr |- *.
         apply (IH _ C U (S k)).
         * apply (BI_margin st1 C C U (as_margin st') HB1).
         * intros a ca _ Hl. cbn [as_cost] in Hl. destruct (Nat.eq_dec a cur) as [-> | Hne].
           -- left. rewrite Hcc in Hl. injection Hl as <-. exact Hcl.
           -- apply (HO1 a ca); [congruence | exact Hl].
+        * exact HGr.
         * cbn [as_frontier]. lia.
         * lia.
       + (* cur is expanded now: its cost is optimal; it joins C *)
         pose proof (pop_optimal st p cur cc I HF HO (as_pq_get_min _ _ _ Hget) Hcc Hin Hent) as Hopt.
         pose proof (as_relax_budget (adj cur) cur st1 cc [] C U (BI_weaken _ _ _ cur HB1) Hcc HO1
                       (fun b e (H : In (b, e) []) => match H with end) (fun x H => H)) as Hr.
-        destruct (as_relax h goal true cur (adj cur) st1) as [st' | st' |]; [| exact Logic.I | contradiction].
+        destruct (as_relax h goal early cur (adj cur) st1) as [st' | st' |]; [| exact Logic.I | contradiction].
         destruct Hr as (U' & HB' & Hcc' & HO' & HD' & Hcnt).
         apply (IH st' (cur :: C) U' (S k)).
         * destruct HB' as [B1 B2 B3 B4 B5 B6]. constructor; auto.
@@ -374,13 +413,14 @@ Section Budget.
         * intros a ca _ Hl. destruct (Nat.eq_dec a cur) as [-> | Hne].
           -- left. rewrite Hcc' in Hl. injection Hl as <-. intros b e Hb. apply (HD' b e). exact Hb.
           -- apply HO'; [congruence | assumption].
+        * exact HGr.
         * simpl in Hcnt. lia.
         * lia.
   Qed.
 
-  (* astar_budget *)
+  (* astar_budget, both stopping modes *)
   Theorem as_astar_budget : forall maxits, (E <= maxits)%nat ->
-    exists cf cs mg, as_forward adj h start goal true maxits = AS_Found cf cs mg.
+    exists cf cs mg, as_forward adj h start goal early maxits = AS_Found cf cs mg.
   Proof.
     intros maxits Hm. unfold as_forward.
     assert (HB0 : BI (as_init start) [] [] []).
@@ -394,14 +434,16 @@ Section Budget.
     assert (HO0 : Fo None (as_init start)).
     { intros a ca _ Hl. unfold as_init in Hl; simpl in Hl. destruct (Nat.eqb_spec a start) as [-> | Hne]; [| discriminate].
       right. right. split; [reflexivity | now left]. }
-    pose proof (as_loop_budget maxits (as_init start) [] [] 0%nat HB0 HO0 eq_refl ltac:(lia)) as H.
-    destruct (as_loop adj h goal true maxits (as_init start)) as [cf cs mg | |]; try contradiction. eauto.
+    assert (HG0 : Fg (as_init start)).
+    { intros cg Hl. unfold as_init in Hl; simpl in Hl. destruct (Nat.eqb_spec goal start); [contradiction | discriminate]. }
+    pose proof (as_loop_budget maxits (as_init start) [] [] 0%nat HB0 HO0 HG0 eq_refl ltac:(lia)) as H.
+    destruct (as_loop adj h goal early maxits (as_init start)) as [cf cs mg | |]; try contradiction. eauto.
   Qed.
 End Budget.
 
-(* the public function: with early stopping and a budget of at least E iterations a valid path is returned *)
+(* the public function: in both stopping modes a budget of at least E expansions returns a valid path *)
 Lemma as_path_budget :
-  forall (adj : nat -> list (nat * nat)) (h : nat -> nat -> Z) (start goal E : nat),
+  forall (adj : nat -> list (nat * nat)) (h : nat -> nat -> Z) (start goal E : nat) (early : bool),
     (forall a b e, In (b, e) (adj a) -> 0 <= h a b /\ (a <> b -> 0 < h a b)) ->
     (forall a b e, In (b, e) (adj a) -> h a goal <= h a b + h b goal) ->
     (forall n, 0 <= h n goal) ->
@@ -410,11 +452,11 @@ Lemma as_path_budget :
     (forall a b e a' b', In (b, e) (adj a) -> In (b', e) (adj a') -> (a = a' /\ b = b') \/ (a = b' /\ b = a')) ->
     (exists ws es, as_chain adj ws es /\ hd_error ws = Some goal /\ last ws goal = start) ->
     forall maxits, (E <= maxits)%nat ->
-      exists ns es mg, as_path adj h start goal true maxits = AS_Path ns es mg /\ as_valid_chain adj start goal ns es.
+      exists ns es mg, as_path adj h start goal early maxits = AS_Path ns es mg /\ as_valid_chain adj start goal ns es.
 Proof.
-  intros adj h start goal E Hh Hcons Hhg Hgs G1 G2 G3 maxits Hm.
-  destruct (as_astar_budget adj h start goal E Hh Hcons Hhg Hgs G1 G2 G3 maxits Hm) as (cf & cs & mg & Hf).
-  pose proof (as_path_valid adj h start goal true Hh maxits) as Hv.
+  intros adj h start goal E early Hh Hcons Hhg Hgs G1 G2 G3 maxits Hm.
+  destruct (as_astar_budget adj h start goal E early Hh Hcons Hhg Hgs G1 G2 G3 maxits Hm) as (cf & cs & mg & Hf).
+  pose proof (as_path_valid adj h start goal early Hh maxits) as Hv.
   unfold as_path in *. rewrite Hf in *.
   destruct (as_backward cf start goal) as [[ns es] |]; [| contradiction].
   exists ns, es, mg. split; [reflexivity | exact Hv].
@@ -446,4 +488,20 @@ Proof.
       repeat (destruct H' as [H' | H']; [inversion H'; subst; clear H' |]); try contradiction; try discriminate; auto.
   - exists [2; 1; 0]%nat, [1; 0]%nat. split; [| split; reflexivity].
     apply as_chain_cons; [simpl; auto | apply as_chain_cons; [simpl; auto | apply as_chain_one]].
+Qed.
+
+Lemma as_budget_tight :
+  exists (adj : nat -> list (nat * nat)) (h : nat -> nat -> Z),
+    adj = (fun n => match n with 0 => [(1, 0)] | 1 => [(0, 0); (2, 1)] | 2 => [(1, 1)] | _ => [] end)%nat /\
+    (forall a b e, In (b, e) (adj a) -> 0 <= h a b /\ (a <> b -> 0 < h a b)) /\
+    (exists m, as_path adj h 0 2 false 1 = AS_PathFindingError m) /\
+    (exists m, as_path adj h 0 2 false 2 = AS_Path [2; 1; 0]%nat [1; 0]%nat m) /\
+    (exists m, as_path adj h 0 2 true 1 = AS_PathFindingError m) /\
+    (exists m, as_path adj h 0 2 true 2 = AS_Path [2; 1; 0]%nat [1; 0]%nat m).
+Proof.
+  exists (fun n => match n with 0 => [(1, 0)] | 1 => [(0, 0); (2, 1)] | 2 => [(1, 1)] | _ => [] end)%nat,
+         (fun a b : nat => Z.abs (Z.of_nat a - Z.of_nat b)).
+  split; [reflexivity |]. split.
+  - destruct as_budget_example as [H _]. exact H.
+  - repeat split; eexists; vm_compute; reflexivity.
 Qed.
